@@ -93,6 +93,27 @@ def _psyms(fi):
             if isinstance(t, ast.Name) and isinstance(v, ast.Subscript) and isinstance(v.slice, ast.Constant) and v.slice.value == 1 \
                     and _shape_source_is_dp(fi, v.value):
                 out.add(t.id)
+    # copies: `P2 = P`, `DPN = (D, P, N)` ... `D, P, N = DPN`
+    tups = {}
+    for st in walk_no_nested(fi.node):
+        if isinstance(st, ast.Assign) and len(st.targets) == 1 and isinstance(st.targets[0], ast.Name) and isinstance(st.value, ast.Tuple):
+            tups.setdefault(st.targets[0].id, []).append(st.value)
+    for _ in range(4):
+        n0 = len(out)
+        for st in walk_no_nested(fi.node):
+            if not (isinstance(st, ast.Assign) and len(st.targets) == 1):
+                continue
+            t, v = st.targets[0], st.value
+            if isinstance(t, ast.Name) and isinstance(v, ast.Name) and v.id in out:
+                out.add(t.id)
+            if isinstance(t, (ast.Tuple, ast.List)):
+                srcs = [v] if isinstance(v, ast.Tuple) else (tups.get(v.id, []) if isinstance(v, ast.Name) else [])
+                srcs = [s_ for s_ in srcs if len(s_.elts) == len(t.elts)]
+                for i, e in enumerate(t.elts):
+                    if isinstance(e, ast.Name) and srcs and all(isinstance(s_.elts[i], ast.Name) and s_.elts[i].id in out for s_ in srcs):
+                        out.add(e.id)
+        if len(out) == n0:
+            break
     return out
 
 
